@@ -135,7 +135,8 @@ def trace_bounded_instance():
         emb = rng.normal(size=(F, N, 3)) + 2.0 * np.eye(3)[lab % 3]
         init = np.moveaxis(rng.dirichlet(2 * np.ones(K), size=(F, N)), -1, -2).copy() + 1e-3
         init /= init.sum(-2, keepdims=True)
-        sal = rng.randint(1, 4, size=(F, N)).astype(float) if inp['sal'] else None
+        # integer saliency (observation counts), correlated with the clusters
+        sal = (1.0 + 3.0 * (lab == 0) * (rng.rand(F, N) < 0.8)) if inp['sal'] else None
         if which == 'gcacgmm':
             wca = (-1,) if wca == -2 else wca
             sal = None if sal is None else sal
@@ -209,7 +210,7 @@ def trace_bounded_instance():
                 yield 'own-log_likelihood-equals-mixture-log-likelihood', bool(abs(o - ll[i]) <= 1e-8 * max(1.0, abs(ll[i])))
                 break
 
-    return Instance('C02', DN + '*Trainer.fit', 'bounded-log-likelihood-traces', make, call, ensures, mode='bounded', bounded_n=40, frame=False)
+    return Instance('C02', DN + '*Trainer.fit', 'bounded-log-likelihood-traces', make, call, ensures, mode='bounded', bounded_n=60, frame=False)
 
 
 def instances(tier):
